@@ -342,6 +342,16 @@ def c_slice_iter(eng, st, fr, f, args, site):
     rt = ret_ty(eng, site)
     if vw is None:
         return None
+    arr = vw.get("arr")
+    if arr is not None and len(arr.elems) <= 16 and "iter_mut" not in f["path"] and "mut" not in f["path"].split("IntoIterator")[-1] and not all(isinstance(e, Int) and e.w == 8 for e in arr.elems):
+        # a small array whose elements are known (a constant table): the iterator knows its elements and position
+        k = eng._hv()
+        refs = []
+        for i, e in enumerate(arr.elems):
+            loc = "obj:tab#%d_%d" % (k, i)
+            st.locs[loc] = e
+            refs.append(Ref(loc, (), False))
+        return [(st, Cont("iter:arr", "arrit#%d" % k, Lin.const(len(refs)), None, (("elems", tuple(refs), 0),), rt))]
     return [(st, mk_iter(eng, "ref", vw, rt, True))]
 
 
@@ -368,6 +378,91 @@ def c_array_into_iter(eng, st, fr, f, args, site):
     if not isinstance(a, Arr) or len(a.elems) > 8:
         return None
     return [(st, Cont("iter:arr", "arrit#%d" % eng._hv(), Lin.const(len(a.elems)), None, (("elems", tuple(a.elems), 0),), rt))]
+
+
+def _known_iter(eng, st, r):
+    if not isinstance(r, Ref):
+        return None
+    it = deref(eng, st, r)
+    if isinstance(it, Cont) and it.kind == "iter:arr" and it.segs and it.segs[0][0] == "elems":
+        return it
+    return None
+
+
+@contract(r"^<(std|core)::slice::Iter<'a, T> as (std|core)::iter::Iterator>::(find|position|any|all|find_map)(::<.*>)?$|^(std|core)::iter::Iterator::(find|position|any|all|find_map)$")
+def c_known_iter_search(eng, st, fr, f, args, site):
+    """find / position / any / all / find_map over an iterator with known elements: element by element, the closure is
+    analysed on each (a table lookup becomes a decision list)."""
+    from engine.contracts_std import call_closure
+    it = _known_iter(eng, st, args[0])
+    rt = ret_ty(eng, site)
+    if it is None or rt is None or len(args) < 2:
+        return None
+    op = re.sub(r"::<.*$", "", f["path"]).split("::")[-1]
+    _, elems, pos = it.segs[0]
+    outs = []
+    live = [st]
+    r = args[0]
+    for i in range(pos, len(elems)):
+        nxt = []
+        for s0 in live:
+            e = elems[i]
+            arg = e
+            if op == "find":
+                # the predicate takes &Self::Item
+                loc = "obj:findarg#%d" % eng._hv()
+                s0.locs[loc] = e
+                arg = Ref(loc, (), False)
+            res = call_closure(eng, s0, fr, args[1], [arg], site)
+            if res is None:
+                return None
+            for s1, v in res:
+                if op == "find_map":
+                    from engine.contracts_std import as_enum, split_variants
+                    ev, _ = as_enum(eng, s1, v)
+                    if ev is None:
+                        return None
+                    for s2, vi, fs in split_variants(eng, s1, ev, None):
+                        if vi == 1:
+                            eng.M.write_path(s2, r.loc, r.path, Cont(it.kind, it.id, Lin.const(len(elems) - i - 1), None, (("elems", elems, i + 1),), it.ty))
+                            s2.key = s2.key + (("tab", it.id, i),)
+                            outs.append((s2, Enum(rt, ((1, (fs[0],)),), "found")))
+                        else:
+                            nxt.append(s2)
+                    continue
+                if not isinstance(v, Bool):
+                    return None
+                for truth in (True, False):
+                    s2 = s1.fork()
+                    try:
+                        eng.assume(s2, v.cond, truth)
+                    except Dead:
+                        continue
+                    hit = truth if op != "all" else (not truth)
+                    if hit:
+                        eng.M.write_path(s2, r.loc, r.path, Cont(it.kind, it.id, Lin.const(len(elems) - i - 1), None, (("elems", elems, i + 1),), it.ty))
+                        s2.key = s2.key + (("tab", it.id, i),)
+                        if op == "find":
+                            outs.append((s2, Enum(rt, ((1, (e,)),), "found")))
+                        elif op == "position":
+                            outs.append((s2, Enum(rt, ((1, (int_const(i - pos, 64, False),)),), "found")))
+                        elif op == "any":
+                            outs.append((s2, TRUE))
+                        else:
+                            outs.append((s2, FALSE))
+                    else:
+                        nxt.append(s2)
+        live = nxt
+    for s0 in live:
+        eng.M.write_path(s0, r.loc, r.path, Cont(it.kind, it.id, Lin.const(0), None, (("elems", elems, len(elems)),), it.ty))
+        s0.key = s0.key + (("tab", it.id, "none"),)
+        if op in ("find", "position", "find_map"):
+            outs.append((s0, Enum(rt, ((0, ()),), "notfound")))
+        elif op == "any":
+            outs.append((s0, FALSE))
+        else:
+            outs.append((s0, TRUE))
+    return outs
 
 
 @contract(r"^<(std|core)::array::IntoIter<T, N> as (std|core)::iter::Iterator>::next$|^(std|core)::array::iter::<impl (std|core)::iter::Iterator for (std|core)::array::IntoIter<T, N>>::next$")
@@ -397,6 +492,8 @@ def c_iter_next(eng, st, fr, f, args, site):
     it = deref(eng, st, r)
     if not isinstance(it, Cont) or not it.kind.startswith("iter:"):
         return None
+    if it.kind == "iter:arr":
+        return c_array_iter_next(eng, st, fr, f, args, site)
     outs = []
     pt = variant_payload_ty(eng, rt, 1)
     # None: nothing left
